@@ -536,7 +536,8 @@ Inductive op : Type :=
 | OBeginIndep
 | OEndIndep
 | OInq (line : Z)
-| OClose (line : Z).
+| OClose (line : Z)
+| OReopen (line : Z).                (* ncmpi_open(NC_WRITE) of the same file with the same hints *)
 
 Definition all_ranks (w : world) : list nat := seq 0 (length (w_rs w)).
 
@@ -656,6 +657,10 @@ Definition step (cfg : config) (ord : list wr -> list wr) (w : world) (o : op) :
   | OInq line =>
       (w, map (fun k => [30; line; Z.of_nat k; numrecs_view (get_rank w k)]) (all_ranks w))
   | OClose line => (close_all cfg ord w, [])
+  | OReopen line =>
+      (* ncbbio_open: new log, new put list; ncmpio reads numrecs from the header *)
+      let m := zmax_list (map r_nr (w_rs w)) in
+      (mkW (w_file w) (map (fun r => mkR log_init [] [] [] 0 m (r_g r) (r_ev r)) (w_rs w)) false true (w_spin w), [])
   end.
 
 Fixpoint run (cfg : config) (ord : list wr -> list wr) (w : world) (ops : list op) : world * list obs :=
